@@ -461,6 +461,7 @@ type AllocateOptions struct {
 
 // AllocateWithOptions allocates a prefix with additional options for DHCPv6.
 func (p *PoolAllocator) AllocateWithOptions(ctx context.Context, opts AllocateOptions) (*net.IPNet, error) {
+	existed := p.allocator.Lookup(opts.SubscriberID) != nil
 	prefix, err := p.allocator.Allocate(opts.SubscriberID)
 	if err != nil {
 		return nil, err
@@ -479,8 +480,11 @@ func (p *PoolAllocator) AllocateWithOptions(ctx context.Context, opts AllocateOp
 	}
 
 	if err := p.store.SaveAllocation(ctx, record); err != nil {
-		// Rollback allocator state
-		p.allocator.Release(opts.SubscriberID)
+		// Rollback allocator state - only an allocation made by this call;
+		// one that existed before is still persisted and in use
+		if !existed {
+			p.allocator.Release(opts.SubscriberID)
+		}
 		return nil, fmt.Errorf("failed to persist allocation: %w", err)
 	}
 
@@ -489,11 +493,19 @@ func (p *PoolAllocator) AllocateWithOptions(ctx context.Context, opts AllocateOp
 
 // Release releases a subscriber's allocation and removes from store.
 func (p *PoolAllocator) Release(ctx context.Context, subscriberID string) error {
-	if err := p.allocator.Release(subscriberID); err != nil {
+	if p.allocator.Lookup(subscriberID) == nil {
+		return p.allocator.Release(subscriberID) // reports "not allocated"
+	}
+
+	// Remove the persisted record first: if the store refuses, nothing has
+	// changed and the caller can retry. (Releasing the bitmap first left the
+	// address free in memory but still owned in the store, so every later
+	// allocation of it failed with a conflict.)
+	if err := p.store.RemoveAllocation(ctx, p.poolID, subscriberID); err != nil {
 		return err
 	}
 
-	return p.store.RemoveAllocation(ctx, p.poolID, subscriberID)
+	return p.allocator.Release(subscriberID)
 }
 
 // Lookup returns the allocation for a subscriber.
